@@ -1,7 +1,7 @@
 (* GaussZ.v — Gaussian integers Z[i] as pairs, a commutative ring with
    conjugation (Leibniz equality); the carrier of the exact regime. *)
 From Coq Require Import ZArith Ring Lia.
-Open Scope Z_scope.
+Local Open Scope Z_scope.
 
 Definition gz := (Z * Z)%type.
 Definition gz0 : gz := (0, 0).
